@@ -247,7 +247,7 @@ func TestC17(t *testing.T) {
 				}
 			}
 		}
-		nFile := 0
+		nFile, secondCopies := 0, 0
 		drawFile := func(rt *rapid.T) *sFile {
 			if len(w.files) == 0 {
 				rt.Skip()
@@ -270,6 +270,24 @@ func TestC17(t *testing.T) {
 					exp = w.f.Height() + 30000
 				}
 				fail(w.post(o, f.Merkle, f.FileSize, rapid.Int64Range(1, 4).Draw(rt, "maxProofs"), exp, f))
+			},
+			// an owner stores a file it already stores once more, at a later height: a second copy with its own start, its own
+			// prover list and its own proof records (the provers at hand will go on to hold both)
+			"postAgain": func(rt *rapid.T) {
+				if len(w.files) == 0 || len(w.c.App.StorageKeeper.GetAllFileByMerkle(w.f.Ctx)) >= 6 {
+					rt.Skip()
+				}
+				f := drawFile(rt)
+				if f.Start == w.f.Height() {
+					rt.Skip()
+				}
+				for _, o := range w.owners {
+					if o.Bech == f.Owner {
+						g := *f
+						fail(w.post(o, g.Merkle, g.FileSize, rapid.Int64Range(1, 4).Draw(rt, "maxProofs"), f.Expires, &g))
+						secondCopies++
+					}
+				}
 			},
 			"delete": func(rt *rapid.T) {
 				if len(w.posted) == 0 {
@@ -462,6 +480,9 @@ func TestC17(t *testing.T) {
 					}
 				}
 			}
+		}
+		if secondCopies > 0 {
+			rec.Count("histories-with-a-second-copy-of-a-file-by-the-same-owner")
 		}
 		rec.Case(removedFromShared, ev.Hash(w.trace...), func() interface{} { return w.trace })
 	})
